@@ -395,7 +395,8 @@ def _r3(run, prog):
     run.subject('C18-R3')
     # the number of segments is the integer n_segments: offsets generated by a floating-point arange(0, length, step) can number one more
     # than length / step (numpy documents the count as unreliable for non-integer steps), which puts a segment beyond the laser end
-    fl = [c for l in loops for c in ast.walk(l.iter) if isinstance(c, ast.Call) and dotted(c.func) in ('np.arange', 'numpy.arange', 'arange')
+    iters = [l.iter for l in loops] + [g.iter for n_ in ast.walk(fn) if isinstance(n_, (ast.ListComp, ast.GeneratorExp)) for g in n_.generators]
+    fl = [c for it_ in iters for c in ast.walk(it_) if isinstance(c, ast.Call) and dotted(c.func) in ('np.arange', 'numpy.arange', 'arange')
           and len(c.args) == 3 and not all(isinstance(a, ast.Constant) and isinstance(a.value, int) for a in c.args)]
     if fl:
         run.fail('C18-R3', K + 'float-arange', mi.relpath, fl[0].lineno,
